@@ -19,6 +19,10 @@ package server
 //@ ghost var streamReads Int
 //@ ghost var tcpSpawns Int
 //@ ghost var onlineCalls Int
+//@ ghost var offlineCalls Int
+//@ ghost var curHandler ref *h3sHandler
+//@ ghost var refusals Int
+//@ ghost var limitCloses Int
 
 //@ spec func isAuthReq(r) = r.Method == "POST" && r.Host == "hysteria" && r.URL.Path == "/auth"
 // the server's send rate: the client's declared receive limit (0 = unknown: no fixed
@@ -59,7 +63,14 @@ package server
 //@   update udpSpawns = udpSpawns + 1
 //@ hook call TrafficLogger.LogOnlineState(tl, id, online)
 //@   props C01 C02 C10 C15
-//@   update onlineCalls = onlineCalls + 1
+//@   update onlineCalls = onlineCalls + ite(online, 1, 0)
+//@   update offlineCalls = offlineCalls + ite(online, 0, 1)
+//@ hook after call newH3sHandler(cfg, q) (hh)
+//@   update curHandler = hh
+//@ hook after call TrafficLogger.LogTraffic(tl, id, tx, rx) (ok)
+//@   update refusals = refusals + ite(ok, 0, 1)
+//@ hook call (*Conn).CloseWithError(c, code, msg)
+//@   update limitCloses = limitCloses + ite(code == 263, 1, 0)
 
 // ---------------------------------------------------------------------------
 // C01: the flag is set only by an accepted verdict of this invocation's single
@@ -111,6 +122,7 @@ package server
 //@   ensures isAuthReq(r) && !old(h.authenticated) && authOK ==> (brutalCalls == old(brutalCalls) + 1) == (!h.config.IgnoreClientBandwidth && serverTx(reqRx, h.config.BandwidthConfig.MaxTx) > 0)
 //@   ensures isAuthReq(r) && old(h.authenticated) ==> brutalCalls == old(brutalCalls) && configuredCalls == old(configuredCalls)
 //@   ensures onlineCalls == old(onlineCalls) + ite(isAuthReq(r) && !old(h.authenticated) && authOK && h.config.TrafficLogger != nil, 1, 0)
+//@   ensures offlineCalls == old(offlineCalls) && curHandler == old(curHandler)
 //@   modifies h.authenticated, h.authID, ghosts
 
 //@ guard call Handler.ServeHTTP(hh, w2, r2)
@@ -144,12 +156,51 @@ package server
 //@   ensures ft != 1025 ==> ret0 == false && isnil(ret1) && streamReads == old(streamReads) && tcpSpawns == old(tcpSpawns)
 //@   ensures ret0 ==> tcpSpawns == old(tcpSpawns) + 1 && isnil(ret1)
 //@   ensures !ret0 ==> tcpSpawns == old(tcpSpawns)
-//@   modifies streamReads, tcpSpawns
+//@   ensures err != nil || !h.authenticated || ft != 1025 ==> rpos == old(rpos)
+//@   modifies streamReads, tcpSpawns, rpos
 
 //@ func (*h3sHandler).handleTCPRequest
 //@   props C01
 //@   trusted
 //@   requires h.authenticated
+
+// ---------------------------------------------------------------------------
+// C15 (server side): online is reported once per accepted authentication
+// (ServeHTTP above), offline once when that connection's handler returns and only
+// if it was authenticated; a refused traffic report closes the QUIC connection.
+
+//@ guard call TrafficLogger.LogOnlineState(tl, id, online) in (*h3sHandler).ServeHTTP
+//@   props C15
+//@   requires online && authOK && h.authenticated && id == h.authID
+//@ guard call TrafficLogger.LogOnlineState(tl, id, online) in (*serverImpl).handleClient
+//@   props C15
+//@   requires !online && handler.authenticated && id == handler.authID && handler == curHandler
+
+//@ func (*serverImpl).handleClient
+//@   props C01 C15
+//@   nonil
+//@   ensures fresh(curHandler)
+//@   ensures offlineCalls == old(offlineCalls) + ite(curHandler.authenticated && s.config.TrafficLogger != nil, 1, 0)
+//@   modifies any
+
+//@ func (*udpIOImpl).ReceiveMessage
+//@   props C15
+//@   nonil
+//@   ensures limitCloses - old(limitCloses) == refusals - old(refusals)
+//@   ensures refusals > old(refusals) ==> ret0 == nil && ret1 == errDisconnect
+//@   ensures refusals <= old(refusals) + 1
+//@   modifies ghosts
+//@   loop 0
+//@     invariant limitCloses == old(limitCloses) && refusals == old(refusals)
+
+//@ func (*udpIOImpl).SendMessage
+//@   props C15
+//@   nonil
+//@   requires base(buf) != base(msg.Data)
+//@   ensures limitCloses - old(limitCloses) == refusals - old(refusals)
+//@   ensures refusals > old(refusals) ==> ret == errDisconnect
+//@   ensures refusals <= old(refusals) + 1
+//@   modifies ghosts, buf[0:len(buf)]
 
 // ---------------------------------------------------------------------------
 // Ownership facts (discharged on the SSA of the package).
